@@ -22,7 +22,7 @@ ASSUMPTIONS = [
 PROFILES = [
     ('moves',       3, dict(reexport=0.8, nested=0.4, roots=(1, 3))),
     ('multi-moves', 2, dict(reexport=0.8, multi_reexport=True, nested=0.4, roots=(1, 3))),
-    ('dups',        2, dict(reexport=0.6, dup=0.5, nested=0.3, fields=0.3)),
+    ('dups',        2, dict(reexport=0.6, dup=0.5, dup_mixed=True, nested=0.3, fields=0.3)),
     ('cyclic',      3, dict(reexport=0.6, cyclic=True, dup=0.3, nested=0.3, star=0.4)),
     ('onto',        1, dict(reexport=0.9, onto_existing=0.6, dup=0.2)),
     ('zope',        2, dict(reexport=0.5, zope=1.0, cyclic=False, fields=0.3)),
